@@ -218,6 +218,26 @@ Module WS.
         as [[[o p] k]|m] eqn:E; simpl in H; [|discriminate]. inversion H; subst. eapply ptd_well_scoped; eauto.
   Qed.
 
+  (* the typed form: the guard is GraphQL's ScalarLeafs rule along the generator's own typed traversal
+     ([typed_leafs H]: where H holds of (type, selection list), a field without sub-selection is scalar/enum IN THAT
+     TYPE, and H is handed on to every (class type, sub-selection) a class is generated for).  The by-name guard
+     above is one instance ([leaf_disc_typed]); any typing judgement closed under these two steps is another. *)
+  Theorem C04_well_scoped_classes_typed : forall (H : string -> list sel -> Prop) fuel C S frs d cls tn,
+    typed_leafs C S frs H ->
+    result_classes fuel C S frs d = Ok cls ->
+    (match d with DOp kind _ _ _ => root_type_name S kind = Ok tn | DFrag f => tn = fr_on f end) ->
+    H tn (match d with DOp _ _ _ sels => sels | DFrag f => fr_sel f end) ->
+    forall c pf n, In c cls -> In pf (c_fields c) -> In n (ann_classes (p_ann pf)) -> In n (map c_name cls).
+  Proof.
+    intros H fuel C S frs [kind name mixins sels | f] cls tn HH E T L; simpl in E.
+    - unfold op_parse in E. rewrite T in E. simpl in E.
+      destruct (parse_type_def fuel C S frs [] (pascal_s name) tn sels false mixins None) as [[[o p] k]|m] eqn:P;
+        simpl in E; [|discriminate]. inversion E; subst. eapply ptd_well_scoped_typed; eauto.
+    - subst tn. destruct (unpack_fragment S f None); [inversion E; subst; intros c pf n []|].
+      destruct (parse_type_def fuel C S frs [] (pascal_s (fr_name f)) (fr_on f) (fr_sel f) false (fr_mixins f) None)
+        as [[[o p] k]|m] eqn:P; simpl in E; [|discriminate]. inversion E; subst. eapply ptd_well_scoped_typed; eauto.
+  Qed.
+
   Theorem C04_well_scoped_enums : forall fuel C S frs d cls,
     result_classes fuel C S frs d = Ok cls ->
     forall c pf e, In c cls -> In pf (c_fields c) -> In e (ann_enums (p_ann pf)) ->
@@ -295,6 +315,7 @@ Module WS.
   Qed.
 End WS.
 Print Assumptions WS.C04_well_scoped_classes_partial.
+Print Assumptions WS.C04_well_scoped_classes_typed.
 Print Assumptions WS.C04_well_scoped_enums.
 Print Assumptions WS.C04_well_scoped_bases.
 
